@@ -429,7 +429,13 @@ func c14FilterArg(r *mon.Rand) string {
 	if r.Chance(1, 15) {
 		rhs = ""
 	}
-	return lhs + op + rhs
+	arg := lhs + op + rhs
+	// text in front of the filter that is separated from it by a line break, a tab or a carriage return (inside one
+	// quoted argument): the argument as a whole is not a filter, whatever its last line looks like
+	if fr := r.Fork(17); fr.Chance(1, 25) {
+		arg = mon.Pick(fr, []string{"not a filter", "path /etc/shadow", "x", "uid", "", "-F"}) + mon.Pick(fr, []string{"\n", "\n\n", "\r\n", "\t", "\r"}) + arg
+	}
+	return arg
 }
 
 func c14CompareArg(r *mon.Rand) string {
